@@ -30,7 +30,7 @@ def locked_section(r, nkeys):
         elif x == 4: ops.append('l.find %d' % k)
         elif x == 5: ops.append('l.rehash %d' % r.choice([1, 2, 3, 4]))
         elif x == 6: ops.append('l.clear')
-        else: ops.append('l.sin %d %d %d %d %d' % (r.choice([0, 1, 2, 3]), r.randrange(1, nkeys + 1), r.randrange(90), r.randrange(1, nkeys + 1), r.randrange(90)))
+        else: ops.append('%s %d %d %d %d %d' % (r.choice(['l.sin', 'l.sin', 'l.sin', 'l.sinbad']), r.choice([0, 1, 2, 3]), r.randrange(1, nkeys + 1), r.randrange(90), r.randrange(1, nkeys + 1), r.randrange(90)))
     ops.append('unlock')
     return ops
 
@@ -241,7 +241,7 @@ def gen_sweep_section(seed, spb, lbits, sin_only=False, maxpoints=45):
     hdr.append('pre mhp 6')
     for k in (1, 2):
         hdr.append('pre insert %d %d' % (k, 10 * k))
-    sin = 'l.sin %d 1 11 3 33' % r.choice([0, 1, 2, 3, 4])
+    sin = '%s %d 1 11 3 33' % (r.choice(['l.sin', 'l.sin', 'l.sinbad']), r.choice([0, 1, 2, 3, 4]))
     sec = [sin] if sin_only else [r.choice([sin, sin, 'l.rehash %d' % r.choice([1, 2, 3, 4]), 'l.clear', 'l.erase 1 ; l.insert 3 30',
                                             'l.rehash %d ; %s' % (r.choice([2, 3]), sin), 'l.insert 3 30 ; l.insert 4 40 ; l.insert 5 50'])]
     t0 = 'lock ; ' + ' ; '.join(sec) + ' ; unlock'
